@@ -42,7 +42,8 @@ func vmDecodeOn(b []byte) c15res {
 	r.pv, r.stack = vk.Guard(func() {
 		p, rest, err := codec.VMDecode(b)
 		r.out = strings.Join(codec.Strings(p), "\n") + fmt.Sprintf("|rest=%d", len(rest))
-		r.err = err != nil
+		// an undefined opcode that vm.ParseOp lets through is a success of the decoder, not an error of the walker
+		r.err = err != nil && err != codec.ErrUndefinedOpcodeAccepted
 	})
 	return r
 }
